@@ -6,7 +6,7 @@ import (
 	"verif/sim/core"
 )
 
-var certainKinds = []string{"enoent", "eacces", "eio-open", "eio-read", "garbage-import", "garbage-body"}
+var certainKinds = []string{"enoent", "eacces", "eio-open", "eio-read", "garbage-import", "garbage-body", "garbage-bracket"}
 var uncertainKinds = []string{"truncate", "flip", "close-error", "empty"}
 
 // planFaults draws 1..3 faults and applies the content ones to the delivered text.
@@ -127,6 +127,9 @@ func applyContentFault(f *FileSpec, ft *Fault) {
 		f.Text = "import :::\n" + f.Text
 	case "garbage-body":
 		f.Text = f.Text + garbageLine
+	case "garbage-bracket":
+		// an attribute list that is never closed: the file ends inside '['
+		f.Text = f.Text + "Tail [~x, y=\"z\"\n"
 	case "bad-foreign":
 		switch {
 		case f.Kind == "swagger" || f.Kind == "openapi3":
